@@ -73,6 +73,10 @@ async fn one(src: String) -> String {
 }
 
 fn main() {
+    // definitions are only stored, never called; still, run everything in a private scratch directory
+    let dir = std::env::temp_dir().join(format!("vh-c14-{}", std::process::id()));
+    std::fs::create_dir_all(&dir).unwrap();
+    std::env::set_current_dir(&dir).unwrap();
     let rt = tokio::runtime::Builder::new_multi_thread().worker_threads(2).enable_all().build().unwrap();
     for line in vh::lines() {
         let src = unesc(line.trim());
@@ -83,4 +87,6 @@ fn main() {
             Err(_) => println!("D=PANIC"),
         }
     }
+    let _ = std::env::set_current_dir("/");
+    let _ = std::fs::remove_dir_all(&dir);
 }
